@@ -376,6 +376,14 @@ func (a *KeyArg) Parse() error {
 	if len(strs) == 0 {
 		return errors.New("invalid key argument: " + string(a.arg))
 	}
+	// key-arg = node-identifier *(sep node-identifier); nested keys
+	// (a descendant path to the key leaf) are tolerated as an extension.
+	for _, s := range strs {
+		id := &DescendantSchemaArg{arg: arg(s)}
+		if err := id.Parse(); err != nil {
+			return errors.New("invalid key argument: " + string(a.arg) + ": " + err.Error())
+		}
+	}
 	a.keys = strs
 	return nil
 }
